@@ -5,14 +5,16 @@
 (* schedule that led there is printed as one JSON line, once per coverage key *)
 (* (the last evaluation with everything that happened inside it, and the      *)
 (* abstract situation it ended in).  The harness replays every exported       *)
-(* schedule on the real watcher.                                              *)
+(* schedule on the real watcher; pred is the sequence of reports this         *)
+(* specification's watcher makes on it (compared with the real reports as a   *)
+(* measure of the model's fidelity - a difference is not a violation).        *)
 EXTENDS Watcher, Json
 \* sched is a history variable: states are identified without it
 MCView == <<chain, nid, bcast, spent, txb, bud, polls, wh, c, v, rep>>
 Last == sched[Len(sched)]
 Cmds == {"addc", "addv", "deliver", "csvtick"}
 Ended == /\ Idle
-         /\ Last.a \in {"rpc", "deliver"}
+         /\ Last.a \in {"rpc", "deliver", "cb"}
 LastCmd == CHOOSE i \in 1..Len(sched) : sched[i].a \in Cmds /\ \A j \in (i + 1)..Len(sched) : sched[j].a \notin Cmds
 Clamp(x, lo, hi) == IF x < lo THEN lo ELSE IF x > hi THEN hi ELSE x
 Key == <<SubSeq(sched, LastCmd, Len(sched)),
@@ -25,5 +27,6 @@ ASSUME TLCSet(1, {})
 Export == Ended =>
             IF Key \in TLCGet(1) THEN TRUE
             ELSE /\ TLCSet(1, TLCGet(1) \cup {Key})
-                 /\ PrintT(ToJson([s |-> sched, key |-> ToString(Key)]))
+                 /\ PrintT(ToJson([s |-> sched, key |-> ToString(Key),
+                                    pred |-> [i \in 1..Len(rep) |-> rep[i].reg \o "/" \o rep[i].res]]))
 ==============================================================================
